@@ -33,6 +33,7 @@ import (
 
 	"github.com/gkampitakis/go-snaps/match"
 	"github.com/goccy/go-yaml"
+	"github.com/maruel/natural"
 	krpretty "github.com/kr/pretty"
 	"github.com/tidwall/gjson"
 	"github.com/tidwall/pretty"
@@ -1255,6 +1256,19 @@ func (w *world) exec1(line string) {
 		w.cfgs[atoi(tok[1])] = WithConfig(opts...)
 		fmt.Fprintln(w.ann, line)
 		fmt.Fprintln(w.out, "cfgrel ok")
+	case "natless":
+		// natless <hex a> <hex b>: maruel/natural.Less, the comparator of Clean's sort, called directly and both ways
+		// round, for the comparison with the Lean model (lean/GoSnaps/Natural.lean) that Lemmas/NaturalOrder.lean
+		// proves a strict total order on canonical ids
+		a, b := unhx(tok[1]), unhx(tok[2])
+		bit := func(v bool) string {
+			if v {
+				return "1"
+			}
+			return "0"
+		}
+		fmt.Fprintln(w.ann, line)
+		fmt.Fprintf(w.out, "natless less=%s rev=%s\n", bit(natural.Less(a, b)), bit(natural.Less(b, a)))
 	case "jsonfmt":
 		// jsonfmt <hex doc> <sortKeys 0|1> <hex indent> <width>: the two library functions C14 rests
 		// on, called directly (the real gjson.Valid / gjson.ValidBytes and pretty.PrettyOptions), for
